@@ -9,7 +9,7 @@ from __future__ import annotations
 import random
 
 
-from .common import ElemError, SrcError, install_future_wrappers, install_singlelane_wrappers, strip
+from .common import ElemError, SrcError, SubmitError, install_future_wrappers, install_singlelane_wrappers, strip
 
 
 # ---------------------------------------------------------------------------------------------------------------
@@ -31,7 +31,12 @@ def gen_scenarios(rnd: random.Random, count, max_n=6, max_cap=3, max_conc=3, all
         srcfail = rnd.choice([0, 0, 0] + list(range(1, n + 2)))
         srcbase = bool(srcfail) and allow_base and rnd.random() < 0.3
         brk = rnd.choice([None, None] + list(range(1, n + 1))) if n else None
-        out.append({'n': n, 'cap': cap, 'conc': conc, 'retexc': rnd.random() < 0.5, 'fail': fail,
+        # the submission function itself raises for one element (direct fifo_stream only)
+        subfail = 0
+        if variant == 'fifo' and not srcfail and n and rnd.random() < 0.25:
+            cand = [i for i in range(1, n + 1) if i not in prefail]
+            subfail = rnd.choice(cand) if cand else 0
+        out.append({'n': n, 'cap': cap, 'conc': conc, 'retexc': rnd.random() < 0.5, 'fail': fail, 'subfail': subfail,
                     'prefail': prefail, 'srcfail': srcfail, 'srcbase': srcbase, 'maybreak': brk is not None,
                     'mode': 'sync', 'variant': variant, 'retx': rnd.random() < 0.6, 'break_at': brk,
                     'usepre': bool(prefail) or rnd.random() < 0.3,
@@ -41,8 +46,9 @@ def gen_scenarios(rnd: random.Random, count, max_n=6, max_cap=3, max_conc=3, all
 
 
 def header(sc):
-    return {k: sc[k] for k in ('n', 'cap', 'conc', 'retexc', 'fail', 'prefail', 'srcfail', 'srcbase', 'maybreak',
-                               'mode')}
+    h = {k: sc[k] for k in ('n', 'cap', 'conc', 'retexc', 'fail', 'prefail', 'srcfail', 'srcbase', 'maybreak', 'mode')}
+    h['subfail'] = sc.get('subfail', 0)
+    return h
 
 
 # ---------------------------------------------------------------------------------------------------------------
@@ -159,6 +165,8 @@ def _make_scenario(sc):
             closed('err', e.i)
         except SrcError:
             closed('src', 0)
+        except SubmitError:
+            closed('sub', 0)
         except BaseException as e:
             if StopRequested is not None and isinstance(e, StopRequested):
                 closed('src', 0)
@@ -179,6 +187,9 @@ def _make_scenario(sc):
         def root():
             with ThreadPoolExecutor(sc['conc']) as ex:
                 def func(x):
+                    if x == sc.get('subfail', 0):
+                        detsched.emit('SubFail', i=x)
+                        raise SubmitError(x)
                     return ex.submit(work, x, loud_exception=False)
 
                 gen = fifo_stream(Src(), func, capacity=sc['cap'], return_x=retx, return_exceptions=retexc,
@@ -202,6 +213,7 @@ def make_strategy(kind, seed):
 ROLE_EVENT = {
     'FeederPull': ('feeder', 'Pull'), 'FeederSrcEnd': ('feeder', 'SrcEnd'), 'FeederSrcRaise': ('feeder', 'SrcRaise'),
     'FeederCheckStop': ('feeder', None), 'FeederPreFail': ('feeder', 'PreFail'), 'FeederSubmit': ('feeder', 'Submit'),
+    'FeederSubmitRaise': ('feeder', 'SubFail'),
     'FeederPut': ('feeder', 'Put'), 'FeederPutEnd': ('feeder', 'Put'), 'FeederPutExc': ('feeder', 'Put'),
     'WorkerTake': ('worker', None), 'WorkerSetRunning': ('worker', None), 'WorkerSkip': ('worker', None),
     'WorkerStart': ('worker', 'WStart'), 'WorkerFinish': ('worker', 'WFinish'),
@@ -239,7 +251,7 @@ def behaviour_to_item(beh):
     sc = {'n': p['n'], 'cap': p['cap'], 'conc': p['conc'], 'retexc': p['retexc'], 'fail': list(p['fail']),
           'prefail': list(p['prefail']), 'srcfail': p['srcfail'], 'srcbase': p['srcbase'],
           'maybreak': p['maybreak'], 'mode': 'sync', 'variant': 'fifo', 'retx': True, 'break_at': brk,
-          'usepre': bool(p['prefail'])}
+          'usepre': bool(p['prefail']), 'subfail': p.get('subfail', 0)}
     if brk == 0:
         return None
     return {'sc': sc, 'script': script}
